@@ -193,6 +193,61 @@ func (e *Env) objFields(recvT, name string, want []string) {
 	for _, w := range want {
 		e.Run.Check("R-OBJ", fmt.Sprintf("%s carries %s over", name, w), e.Prog.Pos(fd.Pos()), written[w], "field "+w+" of the object/scope is not converted: the graph on the other side loses it")
 	}
+	// every non-nil arm of the switch over x.Decl / x.Data stores the converted value (into
+	// out.<field>, or into the restorer's deferred table for out)
+	ast.Inspect(fd.Body, func(n ast.Node) bool {
+		ts, ok := n.(*ast.TypeSwitchStmt)
+		if !ok {
+			return true
+		}
+		var subj ast.Expr
+		switch a := ts.Assign.(type) {
+		case *ast.AssignStmt:
+			if len(a.Rhs) == 1 {
+				if ta, ok := a.Rhs[0].(*ast.TypeAssertExpr); ok {
+					subj = ta.X
+				}
+			}
+		case *ast.ExprStmt:
+			if ta, ok := a.X.(*ast.TypeAssertExpr); ok {
+				subj = ta.X
+			}
+		}
+		se, ok := subj.(*ast.SelectorExpr)
+		if !ok || (se.Sel.Name != "Decl" && se.Sel.Name != "Data") {
+			return true
+		}
+		field := se.Sel.Name
+		for _, st := range ts.Body.List {
+			cc := st.(*ast.CaseClause)
+			if cc.List == nil || (len(cc.List) == 1 && c.ExprStr(cc.List[0]) == "nil") {
+				continue
+			}
+			stored := false
+			for _, b := range cc.Body {
+				ast.Inspect(b, func(m ast.Node) bool {
+					as, ok := m.(*ast.AssignStmt)
+					if !ok {
+						return true
+					}
+					for _, l := range as.Lhs {
+						if p, ok := c.Path(l, outObj); ok && outObj != nil && strings.Split(p, ".")[0] == field {
+							stored = true
+						}
+						if ix, ok := l.(*ast.IndexExpr); ok {
+							if kid, ok := ix.Index.(*ast.Ident); ok && c.ObjOf(kid) == outObj && strings.HasSuffix(c.ExprStr(ix.X), "node"+field) {
+								stored = true
+							}
+						}
+					}
+					return true
+				})
+			}
+			e.Run.Check("R-OBJ", fmt.Sprintf("%s: the %s arm of the switch over %s stores the converted value", name, c.ExprStr(cc.List[0]), field), e.Prog.Pos(cc.Pos()), stored,
+				"the arm converts (or skips) the value without storing it in the new object's "+field+": objects whose "+field+" is of this kind lose it on the other side")
+		}
+		return true
+	})
 	// type switches: arms and panicking default
 	ast.Inspect(fd.Body, func(n ast.Node) bool {
 		ts, ok := n.(*ast.TypeSwitchStmt)
